@@ -78,9 +78,9 @@ P.verify(fn(
     ],
     raises=[RaisesSpec('Exception', when='True', ensures=[('all_lists_unchanged', 'lists_unchanged()')])],
     loops={
-        0: LoopSpec(index='row', invariants=[('frame', 'lists_unchanged()')], modifies=['len', 'el.*']),
+        0: LoopSpec(index='row', invariants=[('frame', 'lists_unchanged()')], modifies=['len.*', 'el.*']),
         1: LoopSpec(index='col', invariants=[('frame', 'lists_unchanged()'), ('txt_fresh', 'fresh(txt)')],
-                    modifies=['len', 'el.*']),
+                    modifies=['len.*', 'el.*']),
     },
 ))
 
